@@ -538,6 +538,17 @@ func execCl(op string) func(a []string) string {
 				}
 				parts = append(parts, "idle:"+st)
 			}
+			if w.lost {
+				// the callbacks of a lost connection run in goroutines of their own: give each the time to have run
+				// once (then a moment more, in which a second run would show)
+				deadline := time.Now().Add(clCeil())
+				for _, c := range w.cbs {
+					for atomic.LoadInt64(c) == 0 && time.Now().Before(deadline) {
+						time.Sleep(200 * time.Microsecond)
+					}
+				}
+				time.Sleep(2 * time.Millisecond)
+			}
 			for _, c := range w.cbs {
 				parts = append(parts, fmt.Sprintf("cb=%d", atomic.LoadInt64(c)))
 			}
